@@ -21,10 +21,12 @@ import (
 	"fmt"
 	"io"
 	"math/big"
+	"net"
 	"strings"
 	"sync"
 	"time"
 
+	dtlserrors "github.com/pion/dtls/v3/internal/errors"
 	dtlsflight "github.com/pion/dtls/v3/internal/flight"
 	dtlsstate "github.com/pion/dtls/v3/internal/state"
 	"github.com/pion/dtls/v3/pkg/protocol"
@@ -196,6 +198,7 @@ type vfSide struct {
 	pumpMu   sync.Mutex
 	Reads    [][]byte
 	ReadErr  error
+	ReadErrs int
 	pumpDone chan struct{}
 }
 
@@ -264,13 +267,17 @@ func (s *vfSide) StartPump() {
 			if err != nil {
 				s.pumpMu.Lock()
 				s.ReadErr = err
+				s.ReadErrs++
+				nerr := s.ReadErrs
 				s.pumpMu.Unlock()
-				var ne interface{ Temporary() bool }
-				if errors.As(err, &ne) && ne.Temporary() && !errors.Is(err, io.EOF) {
-					continue
+				// Read also reports non-fatal receive errors of an established connection (the read
+				// loop continues); only closure / EOF / deadline end the pump.
+				if errors.Is(err, io.EOF) || errors.Is(err, ErrConnClosed) || errors.Is(err, net.ErrClosed) ||
+					errors.Is(err, dtlserrors.ErrDeadlineExceeded) || s.Conn.isConnectionClosed() || nerr > 100000 {
+					return
 				}
 
-				return
+				continue
 			}
 			s.pumpMu.Lock()
 			s.Reads = append(s.Reads, append([]byte(nil), buf[:n]...))
